@@ -168,14 +168,13 @@ fn run_script(script: &[&str]) {
         "lfu" => LfuConfig::default().into(),
         _ => panic!("algo"),
     };
-    let rt = tokio::runtime::Builder::new_current_thread().build().unwrap();
-    let _g = rt.enter();
+    let mut rt = Some(tokio::runtime::Builder::new_current_thread().build().unwrap());
     let cache: C = CacheBuilder::new(1000)
         .with_shards(geti_d(&ckv, "shards", 1) as usize)
         .with_eviction_config(eviction)
         .with_hash_builder(hd)
         .build();
-    let spawner = Spawner::from(rt.handle().clone());
+    let spawner = Spawner::from(rt.as_ref().unwrap().handle().clone());
     let sh = Arc::new(Shared::default());
     println!("{cfgline}");
 
@@ -194,6 +193,7 @@ fn run_script(script: &[&str]) {
                 let has_opt = geti_d(&kv, "opt", 0) == 1;
                 let has_req = geti_d(&kv, "req", 0) == 1;
                 let public = geti_d(&kv, "pub", 0) == 1;
+                let _enter = rt.as_ref().map(|r| r.enter());
                 let fut: G = if public && !has_opt && has_req {
                     // the public API: the user's closure runs eagerly, only the leader's future is polled
                     let (tx, rx) = oneshot::channel();
@@ -285,14 +285,22 @@ fn run_script(script: &[&str]) {
                 pending.remove(&c);
                 dropped.insert(c);
             }
+            "kill" => {
+                // the runtime goes away: every fetch task is dropped wherever it is
+                drop(rt.take());
+            }
             _ => panic!("unknown action {name}"),
         }
-        // run every spawned task to quiescence
-        rt.block_on(async {
-            for _ in 0..64 {
-                tokio::task::yield_now().await;
+        // run every spawned task to quiescence (unless the script wants the new task left unpolled)
+        if geti_d(&kv, "nopoll", 0) == 0 {
+            if let Some(rt) = rt.as_ref() {
+                rt.block_on(async {
+                    for _ in 0..64 {
+                        tokio::task::yield_now().await;
+                    }
+                });
             }
-        });
+        }
         // poll the callers' futures once each
         let mut done = vec![];
         for (c, fut) in pending.iter_mut() {
